@@ -99,6 +99,8 @@ class World:
             data = refcodec.enc_someip(0xFFFF, 0x8100, 0, 0x5555, 1, 2, 0, bytes([0xC0, 0, 0, 0, 0, 0, 0, 0x10])) + data
         elif prefix == 2:
             data = refcodec.enc_someip(0x1234, 0x0001, 0, 0x5555, 1, 0, 0, b"not for you") + data
+        elif prefix == 4:
+            data = data + data  # the same SD message twice in one datagram: two messages, compared one after the other
         elif prefix == 3:
             # ... and behind it
             data = data + refcodec.enc_someip(0xFFFF, 0x8100, 0, 0x5555, 1, 2, 0, bytes([0xC0, 0, 0, 0, 0, 0, 0, 0x10]))
@@ -122,14 +124,17 @@ def model_step(model: dict, letter):
         return None, dict(model)
     sender, multicast, flag, sid = letter[:4]
     k = (sender, multicast)
-    prev = model.get(k)
-    detect = False
-    if prev is not None:
-        pflag, pid = prev
-        detect = bool(flag) and ((not pflag) or sid <= pid)
     new = dict(model)
-    new[k] = (flag, sid)
-    return detect, new
+    detects = []
+    for _ in range(2 if len(letter) > 5 and letter[5] == 4 else 1):
+        prev = new.get(k)
+        detect = False
+        if prev is not None:
+            pflag, pid = prev
+            detect = bool(flag) and ((not pflag) or sid <= pid)
+        new[k] = (flag, sid)
+        detects.append(detect)
+    return (detects[0] if len(detects) == 1 else tuple(detects)), new
 
 
 def judge(letter, detect, calls, returns, exc):
@@ -142,12 +147,15 @@ def judge(letter, detect, calls, returns, exc):
     if exc:
         out.append(dict(clause="no-exception", disc=exc, detail=f"datagram_received raised {exc}"))
         return out
-    want = sorted((c, SENDERS[sender]) for c in ("announcer", "discovery", "subscriber")) if detect else []
+    per = detect if isinstance(detect, tuple) else (detect,)
+    want = sorted((c, SENDERS[sender]) for c in ("announcer", "discovery", "subscriber")) * sum(per)
+    want.sort()
+    detect = any(per)
     if sorted(calls) != want:
         kind = "missed" if detect and not calls else ("spurious" if not detect else "fanout")
         out.append(dict(clause="detection", disc=kind,
                         detail=f"letter={letter} expected detection={detect} fan-out calls={calls}"))
-    if returns != [detect]:
+    if returns != list(per):
         out.append(dict(clause="check-received-return", disc="missed" if detect else "spurious",
                         detail=f"letter={letter} expected {[detect]} got {returns}"))
     return out
@@ -187,7 +195,7 @@ def expand(alphabet, with_entry, node):
         if k_model != {k: v for k, v in model.items() if k != (letter[0], letter[1])}:
             raise AssertionError("model bug")
         nnode = (nimpl, tuple(sorted(nmodel.items())))
-        out.append((letter, nnode, nnode, viols, ("detect" if detect else "quiet", letter[1], letter[2])))
+        out.append((letter, nnode, nnode, viols, ("detect" if (any(detect) if isinstance(detect, tuple) else detect) else "quiet", letter[1], letter[2])))
 
     return out
 
@@ -236,7 +244,7 @@ def check(ctx):
         # messages whose SD unicast flag is clear: their entries are ignored (C03), the sender's reboot is not
         ("one-sender-unicast-flag-set-or-clear-closure", [l + (u,) for l in letters("P", (0, 1)) for u in (0, 1)], 10 ** 6, True),
         # the message shares its datagram with an undecodable SD message / a foreign message in front of it or behind it
-        ("one-sender-datagram-neighbours-closure", [l + (1, p) for l in letters("P", (0, 1)) for p in (0, 1, 2, 3)], 10 ** 6, True),
+        ("one-sender-datagram-neighbours-closure", [l + (1, p) for l in letters("P", (0, 1)) for p in (0, 1, 2, 3, 4)], 10 ** 6, True),
         # the receiving endpoint is started late, or stopped and started again, between messages
         ("one-sender-endpoint-lifecycle-closure", letters("P", (0, 1)) + [("@", 0, 0, 0)], 10 ** 6, False),
     ]
